@@ -1,9 +1,11 @@
 (* FormsLeavesProofs.v — C10: each hand-written leaf restated in FormsLeaves.v computes the ref-ref
    semantics `zsem` on the converted operands (value, and panic cases), ASSUMING the value-level
-   behaviour of the BigUint operations owned by the other areas (Section hypotheses H_*; to be
-   discharged by the integrator with the C01 / C02 / C03 / C07 / C12 theorems). *)
+   behaviour of the BigUint operations owned by the other areas (Section hypotheses H_*;
+   discharged for the digit-level models in inst/InstFormsOps.v with the C01 / C02 / C03 / C07 /
+   C12 theorems).  Scalars are values of a primitive type (< 2^128); the shift hypotheses are
+   stated inside the physical range of C07 ([shift_phys]). *)
 From Coq Require Import ZArith Zquot List Bool Lia.
-From BigNum Require Import Base Forms FormsLeaves FormsProofs.
+From BigNum Require Import Base SpecBits Forms FormsLeaves FormsProofs.
 Import ListNotations.
 Open Scope Z_scope.
 
@@ -123,6 +125,35 @@ Qed.
       + f_equal. rewrite Z.rem_mod_nonneg; lia.
   Qed.
 
+(* Physical range of the shift leaves (C07): `x << k` with a result of >= 2^60 digits is a
+   capacity-overflow panic in every form (SpecBits.spec_shl), and the right-shift theorem of C07 is
+   stated for vectors of fewer than 2^58 digits ([vec_ok]; a 64-bit address space holds no longer
+   one).  [zdigits x] = number of 64-bit digits of |x|.  Every other operator: no condition. *)
+Definition shl_overflow (x k : Z) : bool :=
+  negb (x =? 0) && ((0 <? k / 64) && too_big (k / 64 + (zdigits x + 1))).
+Definition shift_phys (o : opk) (x k : Z) : Prop :=
+  match o with
+  | OpShl => shl_overflow x k = false
+  | OpShr => zdigits x < 2 ^ 58
+  | _ => True
+  end.
+Lemma zdigits_abs x : zdigits (Z.abs x) = zdigits x.
+Proof.
+  unfold zdigits. rewrite Z.abs_involutive.
+  destruct (Z.eqb_spec (Z.abs x) 0); destruct (Z.eqb_spec x 0); try lia; reflexivity.
+Qed.
+Lemma shl_overflow_abs x k : shl_overflow (Z.abs x) k = shl_overflow x k.
+Proof.
+  unfold shl_overflow. rewrite zdigits_abs.
+  destruct (Z.eqb_spec (Z.abs x) 0); destruct (Z.eqb_spec x 0); try lia; reflexivity.
+Qed.
+Lemma shift_phys_abs o x k : shift_phys o x k -> shift_phys o (Z.abs x) k.
+Proof.
+  destruct o; simpl; auto.
+  - rewrite shl_overflow_abs. auto.
+  - rewrite zdigits_abs. auto.
+Qed.
+
 Section LeafSpecs.
   Variable uop : opk -> Z -> Z -> outcome Z.
   Variable uop_s : opk -> Z -> Z -> outcome Z.
@@ -135,15 +166,17 @@ Section LeafSpecs.
   (* value-level facts about the other areas' operations (x: BigUint value, s: scalar value) *)
   Hypothesis H_ubigbig : forall o x y, bigbig8 o = true -> 0 <= x -> 0 <= y -> uop o x y = zsem FamU o x y.
   Hypothesis H_ibigbig : forall o x y, bigbig8 o = true -> iop o x y = zsem FamI o x y.
-  Hypothesis H_uadd_scalar : forall x s, 0 <= x -> 0 <= s -> uop_s OpAdd x s = zsem FamU OpAdd x s.
-  Hypothesis H_usub_scalar : forall x s, 0 <= x -> 0 <= s -> uop_s OpSub x s = zsem FamU OpSub x s.
-  Hypothesis H_umul_scalar : forall x s, 0 <= x -> 0 <= s -> uop_s OpMul x s = zsem FamU OpMul x s.
-  Hypothesis H_udivrem_scalar : forall x s, 0 <= x -> 0 <= s ->
+  (* a scalar operand is a value of a primitive type: below 2^128 *)
+  Hypothesis H_uadd_scalar : forall x s, 0 <= x -> 0 <= s < 2 ^ 128 -> uop_s OpAdd x s = zsem FamU OpAdd x s.
+  Hypothesis H_usub_scalar : forall x s, 0 <= x -> 0 <= s < 2 ^ 128 -> uop_s OpSub x s = zsem FamU OpSub x s.
+  Hypothesis H_umul_scalar : forall x s, 0 <= x -> 0 <= s < 2 ^ 128 -> uop_s OpMul x s = zsem FamU OpMul x s.
+  Hypothesis H_udivrem_scalar : forall x s, 0 <= x -> 0 <= s < 2 ^ 128 ->
       uop_s OpDiv x s = zsem FamU OpDiv x s /\ uop_s OpRem x s = zsem FamU OpRem x s.
-  Hypothesis H_scalar_usub : forall s x, 0 <= x -> 0 <= s -> s_uop OpSub s x = zsem FamU OpSub s x.
-  Hypothesis H_scalar_udivrem : forall s x, 0 <= x -> 0 <= s ->
+  Hypothesis H_scalar_usub : forall s x, 0 <= x -> 0 <= s < 2 ^ 128 -> s_uop OpSub s x = zsem FamU OpSub s x.
+  Hypothesis H_scalar_udivrem : forall s x, 0 <= x -> 0 <= s < 2 ^ 128 ->
       s_uop OpDiv s x = zsem FamU OpDiv s x /\ s_uop OpRem s x = zsem FamU OpRem s x.
-  Hypothesis H_ushift : forall o x k, (o = OpShl \/ o = OpShr) -> 0 <= x -> ushift o x k = zsem FamU o x k.
+  Hypothesis H_ushift : forall o x k, (o = OpShl \/ o = OpShr) -> 0 <= x -> shift_phys o x k ->
+      ushift o x k = zsem FamU o x k.
   Hypothesis H_upow_scalar : forall x e, 0 <= x -> 0 <= e -> e < 2 ^ 128 -> upow_s x e = zsem FamU OpPow x e.
   Hypothesis H_upow_big : forall x e, 0 <= x -> 0 <= e -> upow_b x e = zsem FamU OpPow x e.
 
@@ -155,7 +188,7 @@ Section LeafSpecs.
   Notation i_isub := (i_isub uop_s s_uop).
 
   (* ---- BigInt (+|-) scalar ---- *)
-  Lemma leaf_iadd_u_spec x s : 0 <= s -> iadd_u x s = Ret (x + s).
+  Lemma leaf_iadd_u_spec x s : 0 <= s < 2 ^ 128 -> iadd_u x s = Ret (x + s).
   Proof.
     intros Hs. unfold FormsLeaves.iadd_u.
     destruct (Z.eqb_spec x 0) as [->|Hx]; [reflexivity|].
@@ -166,7 +199,7 @@ Section LeafSpecs.
       + rewrite H_scalar_usub by lia. simpl. destruct (Z.ltb_spec s (Z.abs x)); [lia|]. f_equal; lia.
       + rewrite H_usub_scalar by lia. simpl. destruct (Z.ltb_spec (Z.abs x) s); [lia|]. simpl. f_equal; lia.
   Qed.
-  Lemma leaf_isub_u_spec x s : 0 <= s -> isub_u x s = Ret (x - s).
+  Lemma leaf_isub_u_spec x s : 0 <= s < 2 ^ 128 -> isub_u x s = Ret (x - s).
   Proof.
     intros Hs. unfold FormsLeaves.isub_u.
     destruct (Z.eqb_spec x 0) as [->|Hx]; [reflexivity|].
@@ -177,98 +210,98 @@ Section LeafSpecs.
       + rewrite H_scalar_usub by lia. simpl. destruct (Z.ltb_spec s x); [lia|]. simpl. f_equal; lia.
       + rewrite H_usub_scalar by lia. simpl. destruct (Z.ltb_spec x s); [lia|]. reflexivity.
   Qed.
-  Lemma leaf_u_isub_spec s x : 0 <= s -> u_isub s x = Ret (s - x).
+  Lemma leaf_u_isub_spec s x : 0 <= s < 2 ^ 128 -> u_isub s x = Ret (s - x).
   Proof. intros Hs. unfold FormsLeaves.u_isub. rewrite leaf_isub_u_spec by assumption. simpl. f_equal; lia. Qed.
-  Lemma leaf_iadd_i_spec x s : iadd_i x s = Ret (x + s).
+  Lemma leaf_iadd_i_spec x s : - 2 ^ 128 < s < 2 ^ 128 -> iadd_i x s = Ret (x + s).
   Proof.
-    unfold FormsLeaves.iadd_i. destruct (Z.leb_spec 0 s).
-    - apply leaf_iadd_u_spec; assumption.
+    intros Hb. unfold FormsLeaves.iadd_i. destruct (Z.leb_spec 0 s).
+    - apply leaf_iadd_u_spec; lia.
     - rewrite leaf_isub_u_spec by lia. f_equal; lia.
   Qed.
-  Lemma leaf_isub_i_spec x s : isub_i x s = Ret (x - s).
+  Lemma leaf_isub_i_spec x s : - 2 ^ 128 < s < 2 ^ 128 -> isub_i x s = Ret (x - s).
   Proof.
-    unfold FormsLeaves.isub_i. destruct (Z.leb_spec 0 s).
-    - apply leaf_isub_u_spec; assumption.
+    intros Hb. unfold FormsLeaves.isub_i. destruct (Z.leb_spec 0 s).
+    - apply leaf_isub_u_spec; lia.
     - rewrite leaf_iadd_u_spec by lia. f_equal; lia.
   Qed.
-  Lemma leaf_i_isub_spec s x : i_isub s x = Ret (s - x).
+  Lemma leaf_i_isub_spec s x : - 2 ^ 128 < s < 2 ^ 128 -> i_isub s x = Ret (s - x).
   Proof.
-    unfold FormsLeaves.i_isub. destruct (Z.leb_spec 0 s).
-    - apply leaf_u_isub_spec; assumption.
+    intros Hb. unfold FormsLeaves.i_isub. destruct (Z.leb_spec 0 s).
+    - apply leaf_u_isub_spec; lia.
     - rewrite leaf_isub_u_spec by lia. f_equal; lia.
   Qed.
 
   (* ---- BigInt * scalar ---- *)
-  Lemma leaf_imul_u_spec x s : 0 <= s -> imul_u uop_s x s = Ret (x * s).
+  Lemma leaf_imul_u_spec x s : 0 <= s < 2 ^ 128 -> imul_u uop_s x s = Ret (x * s).
   Proof.
     intros Hs. unfold imul_u, sgn_o. rewrite H_umul_scalar by lia. simpl. f_equal.
     rewrite Z.mul_assoc, sgn_mul_abs. reflexivity.
   Qed.
-  Lemma leaf_imul_i_spec x s : imul_i uop_s x s = Ret (x * s).
+  Lemma leaf_imul_i_spec x s : - 2 ^ 128 < s < 2 ^ 128 -> imul_i uop_s x s = Ret (x * s).
   Proof.
-    unfold imul_i. destruct (Z.leb_spec 0 s).
-    - apply leaf_imul_u_spec; assumption.
+    intros Hb. unfold imul_i. destruct (Z.leb_spec 0 s).
+    - apply leaf_imul_u_spec; lia.
     - rewrite leaf_imul_u_spec by lia. f_equal; lia.
   Qed.
 
   (* ---- BigInt (/|%) scalar, scalar (/|%) BigInt: truncated division, DivZero on a zero divisor ---- *)
-  Lemma leaf_idiv_u_spec x s : 0 <= s -> idiv_u uop_s x s = zsem FamI OpDiv x s.
+  Lemma leaf_idiv_u_spec x s : 0 <= s < 2 ^ 128 -> idiv_u uop_s x s = zsem FamI OpDiv x s.
   Proof.
     intros Hs. unfold idiv_u, sgn_o. destruct (H_udivrem_scalar (Z.abs x) s) as [-> _]; try lia.
     simpl. destruct (s =? 0); [reflexivity|]. simpl. f_equal. apply sgn_quot_abs_l.
   Qed.
-  Lemma leaf_u_idiv_spec s x : 0 <= s -> u_idiv s_uop s x = zsem FamI OpDiv s x.
+  Lemma leaf_u_idiv_spec s x : 0 <= s < 2 ^ 128 -> u_idiv s_uop s x = zsem FamI OpDiv s x.
   Proof.
     intros Hs. unfold u_idiv, sgn_o. destruct (H_scalar_udivrem s (Z.abs x)) as [-> _]; try lia.
     simpl. destruct (Z.eqb_spec (Z.abs x) 0) as [E|E]; destruct (Z.eqb_spec x 0) as [E'|E']; try lia; try reflexivity.
     simpl. f_equal. apply sgn_quot_abs_r.
   Qed.
-  Lemma leaf_idiv_i_spec x s : idiv_i uop_s x s = zsem FamI OpDiv x s.
+  Lemma leaf_idiv_i_spec x s : - 2 ^ 128 < s < 2 ^ 128 -> idiv_i uop_s x s = zsem FamI OpDiv x s.
   Proof.
-    unfold idiv_i. destruct (Z.leb_spec 0 s).
-    - apply leaf_idiv_u_spec; assumption.
+    intros Hb. unfold idiv_i. destruct (Z.leb_spec 0 s).
+    - apply leaf_idiv_u_spec; lia.
     - rewrite leaf_idiv_u_spec by lia. simpl.
       destruct (Z.eqb_spec (- s) 0); destruct (Z.eqb_spec s 0); try lia.
       f_equal. apply Z.quot_opp_opp; lia.
   Qed.
-  Lemma leaf_i_idiv_spec s x : i_idiv s_uop s x = zsem FamI OpDiv s x.
+  Lemma leaf_i_idiv_spec s x : - 2 ^ 128 < s < 2 ^ 128 -> i_idiv s_uop s x = zsem FamI OpDiv s x.
   Proof.
-    unfold i_idiv. destruct (Z.leb_spec 0 s).
-    - apply leaf_u_idiv_spec; assumption.
+    intros Hb. unfold i_idiv. destruct (Z.leb_spec 0 s).
+    - apply leaf_u_idiv_spec; lia.
     - rewrite leaf_u_idiv_spec by lia. simpl.
       destruct (Z.eqb_spec (- x) 0); destruct (Z.eqb_spec x 0); try lia; try reflexivity.
       f_equal. apply Z.quot_opp_opp; lia.
   Qed.
-  Lemma leaf_irem_u_spec x s : 0 <= s -> irem_u uop_s x s = zsem FamI OpRem x s.
+  Lemma leaf_irem_u_spec x s : 0 <= s < 2 ^ 128 -> irem_u uop_s x s = zsem FamI OpRem x s.
   Proof.
     intros Hs. unfold irem_u, sgn_o. destruct (H_udivrem_scalar (Z.abs x) s) as [_ ->]; try lia.
     simpl. destruct (s =? 0); [reflexivity|]. simpl. f_equal. apply sgn_rem_abs_l.
   Qed.
-  Lemma leaf_u_irem_spec s x : 0 <= s -> u_irem s_uop s x = zsem FamI OpRem s x.
+  Lemma leaf_u_irem_spec s x : 0 <= s < 2 ^ 128 -> u_irem s_uop s x = zsem FamI OpRem s x.
   Proof.
     intros Hs. unfold u_irem. destruct (H_scalar_udivrem s (Z.abs x)) as [_ ->]; try lia.
     simpl. destruct (Z.eqb_spec (Z.abs x) 0) as [E|E]; destruct (Z.eqb_spec x 0) as [E'|E']; try lia; try reflexivity.
     f_equal. apply rem_abs_r.
   Qed.
-  Lemma leaf_irem_i_spec x s : irem_i uop_s x s = zsem FamI OpRem x s.
+  Lemma leaf_irem_i_spec x s : - 2 ^ 128 < s < 2 ^ 128 -> irem_i uop_s x s = zsem FamI OpRem x s.
   Proof.
-    unfold irem_i. rewrite leaf_irem_u_spec by lia. simpl.
+    intros Hb. unfold irem_i. rewrite leaf_irem_u_spec by lia. simpl.
     destruct (Z.eqb_spec (Z.abs s) 0); destruct (Z.eqb_spec s 0); try lia; try reflexivity.
     f_equal. apply rem_abs_r.
   Qed.
-  Lemma leaf_i_irem_spec s x : i_irem s_uop s x = zsem FamI OpRem s x.
+  Lemma leaf_i_irem_spec s x : - 2 ^ 128 < s < 2 ^ 128 -> i_irem s_uop s x = zsem FamI OpRem s x.
   Proof.
-    unfold i_irem. destruct (Z.leb_spec 0 s).
-    - apply leaf_u_irem_spec; assumption.
+    intros Hb. unfold i_irem. destruct (Z.leb_spec 0 s).
+    - apply leaf_u_irem_spec; lia.
     - rewrite leaf_u_irem_spec by lia. simpl.
       destruct (Z.eqb_spec x 0); [reflexivity|]. simpl. f_equal.
       rewrite Z.rem_opp_l'. lia.
   Qed.
 
   (* ---- BigInt shifts ---- *)
-  Lemma leaf_ishl_spec x k : ishl ushift x k = zsem FamI OpShl x k.
+  Lemma leaf_ishl_spec x k : shift_phys OpShl x k -> ishl ushift x k = zsem FamI OpShl x k.
   Proof.
-    unfold ishl, sgn_o. rewrite H_ushift by (auto; lia). simpl.
+    intros Hph. unfold ishl, sgn_o. rewrite H_ushift by (auto using shift_phys_abs; lia). simpl.
     destruct (k <? 0); [reflexivity|]. simpl. f_equal. unfold zshl.
     destruct (Z.eqb_spec (Z.abs x) 0); destruct (Z.eqb_spec x 0); try lia;
       try (rewrite Z.mul_assoc, sgn_mul_abs; reflexivity).
@@ -281,9 +314,9 @@ Section LeafSpecs.
     rewrite Z.mod_small by lia. destruct (Z.eqb_spec m 0); [lia|reflexivity].
   Qed.
 
-  Lemma leaf_ishr_spec x k : ishr uop_s ushift x k = zsem FamI OpShr x k.
+  Lemma leaf_ishr_spec x k : shift_phys OpShr x k -> ishr uop_s ushift x k = zsem FamI OpShr x k.
   Proof.
-    unfold ishr. rewrite H_ushift by (auto; lia). simpl.
+    intros Hph. unfold ishr. rewrite H_ushift by (auto using shift_phys_abs; lia). simpl.
     destruct (Z.ltb_spec k 0) as [Hk|Hk]; [reflexivity|]. simpl.
     rewrite !zshr_floor by lia.
     assert (Hp : 0 < 2 ^ k) by (apply Z.pow_pos_nonneg; lia).
@@ -336,6 +369,8 @@ Section LeafSpecs.
   Proof. unfold slo; intros ->; reflexivity. Qed.
   Lemma unsigned_hi s : shi s < 2 ^ 128.
   Proof. destruct s; vm_compute; reflexivity. Qed.
+  Lemma signed_lo s : - 2 ^ 128 < slo s.
+  Proof. destruct s; vm_compute; reflexivity. Qed.
   Lemma wide_u_unsigned s : wide_u s = true -> ssigned s = false.
   Proof. destruct s; simpl; congruence. Qed.
   Lemma wide_i_signed s : wide_i s = true -> ssigned s = true.
@@ -344,11 +379,11 @@ Section LeafSpecs.
   (* ---- all leaves together: the leaf at an accepted position computes the ref-ref semantics ---- *)
   Theorem leaf_model_sound f x y :
     is_arith_role (f_role f) = true -> known_leaf f = true ->
-    in_oty (k_ty (f_lhs f)) x -> in_oty (k_ty (f_rhs f)) y ->
+    in_oty (k_ty (f_lhs f)) x -> in_oty (k_ty (f_rhs f)) y -> shift_phys (f_op f) x y ->
     leaf_model uop uop_s s_uop ushift upow_s upow_b iop f x y = zsem (fam f) (f_op f) x y.
   Proof.
     destruct f as [r o [tl rl] [tr rr] sh]. unfold known_leaf, leaf_model, fam. cbn [f_role f_op f_lhs f_rhs k_ty k_ref].
-    intros Hr Hk Hx Hy.
+    intros Hr Hk Hx Hy Hph.
     assert (Hk' : match tl, tr with
                   | OBig b, OBig b' => (bigbig8 o && bigty_eqb b b') || (opk_eqb o OpPow && role_eqb r RBinop && bigty_eqb b' FamU)
                   | OBig b, OSc s => (arith5 o && wide_for b s && negb rr) || ((opk_eqb o OpShl || opk_eqb o OpShr) && negb rr)
@@ -372,7 +407,7 @@ Section LeafSpecs.
           apply H_ibigbig; reflexivity.
     - (* big (op) scalar *)
       cbn [in_oty] in Hy.
-      pose proof (unsigned_hi sr) as Hhi.
+      pose proof (unsigned_hi sr) as Hhi. pose proof (signed_lo sr) as Hlo.
       destruct bl; cbn [in_oty] in Hx.
       + (* BigUint *)
         assert (Hu : arith5 o = true -> 0 <= y).
@@ -380,11 +415,11 @@ Section LeafSpecs.
             rewrite ?orb_false_r in Hk'; rewrite !andb_true_iff in Hk'; destruct Hk' as [Hw _];
             unfold wide_for in Hw; rewrite ?orb_false_r in Hw; apply wide_u_unsigned in Hw; rewrite (unsigned_lo _ Hw) in Hy; lia. }
         destruct o; try (specialize (Hu eq_refl)).
-        * apply H_uadd_scalar; assumption.
-        * apply H_usub_scalar; assumption.
-        * apply H_umul_scalar; assumption.
-        * apply H_udivrem_scalar; assumption.
-        * apply H_udivrem_scalar; assumption.
+        * apply H_uadd_scalar; lia.
+        * apply H_usub_scalar; lia.
+        * apply H_umul_scalar; lia.
+        * apply H_udivrem_scalar; lia.
+        * apply H_udivrem_scalar; lia.
         * simpl in Hk'; discriminate.
         * simpl in Hk'; discriminate.
         * simpl in Hk'; discriminate.
@@ -395,8 +430,8 @@ Section LeafSpecs.
           match goal with H : negb (ssigned sr) = true |- _ => apply negb_true_iff in H; rewrite (unsigned_lo _ H) in Hy end.
           destruct rl; [apply leaf_upow_s_ref_spec | apply H_upow_scalar]; lia.
       + (* BigInt *)
-        assert (Hu : arith5 o = true -> if ssigned sr then True else 0 <= y).
-        { intros Ha. destruct (ssigned sr) eqn:Sg; [exact I|]. rewrite (unsigned_lo _ Sg) in Hy; lia. }
+        assert (Hu : arith5 o = true -> if ssigned sr then - 2 ^ 128 < y < 2 ^ 128 else 0 <= y < 2 ^ 128).
+        { intros Ha. destruct (ssigned sr) eqn:Sg; [lia|]. rewrite (unsigned_lo _ Sg) in Hy; lia. }
         destruct o; try (specialize (Hu eq_refl)); destruct (ssigned sr) eqn:Sg;
           try (simpl in Hk'; discriminate).
         * apply leaf_iadd_i_spec; assumption.
@@ -419,6 +454,7 @@ Section LeafSpecs.
           destruct rl; [apply leaf_upow_s_ref_spec | apply H_upow_scalar]; lia.
     - (* scalar (op) big *)
       cbn [in_oty] in Hx.
+      pose proof (unsigned_hi sl) as Hhi. pose proof (signed_lo sl) as Hlo.
       destruct br; cbn [in_oty] in Hy.
       + (* BigUint *)
         destruct r; try discriminate.
@@ -437,8 +473,8 @@ Section LeafSpecs.
       + (* BigInt *)
         destruct r; try discriminate; [|rewrite andb_false_r in Hk'; discriminate].
         rewrite !andb_true_iff in Hk'. destruct Hk' as [[Ho Hw] _].
-        assert (Hu : if ssigned sl then True else 0 <= x).
-        { destruct (ssigned sl) eqn:Sg; [exact I|]. rewrite (unsigned_lo _ Sg) in Hx; lia. }
+        assert (Hu : if ssigned sl then - 2 ^ 128 < x < 2 ^ 128 else 0 <= x < 2 ^ 128).
+        { destruct (ssigned sl) eqn:Sg; [lia|]. rewrite (unsigned_lo _ Sg) in Hx; lia. }
         destruct o; simpl in Ho; try discriminate; destruct (ssigned sl).
         * apply leaf_i_isub_spec; assumption.
         * apply leaf_u_isub_spec; assumption.
